@@ -3,7 +3,11 @@
 set -e
 cd "$(dirname "$0")"
 exec 9>/verif/.build.lock
-flock 9
+if [ -n "$LOCK_WAIT" ]; then
+  flock -w "$LOCK_WAIT" 9 || { echo "build lock busy (held by another build) - skipping build"; exit 75; }
+else
+  flock 9
+fi
 {
   echo "-Q theories PySDC"
   echo "-arg -w -arg -notation-overridden,-deprecated-hint-without-locality,-deprecated-instance-without-locality,-ambiguous-paths,-undeclared-scope"
